@@ -45,11 +45,12 @@ package resource
 //@   replay MergeChanges(a.ChangeType, b.ChangeType, a.LastSeedValue, b.LastSeedValue)
 //@
 //@ property C11 C02 C03
-//@ // "mu protects byId and rng" (struct comment); the write option/interceptor callbacks run without the lock
+//@ // mu protects byId, rngMu protects rng (struct comments); the write option/interceptor callbacks run without a lock
 //@ type Value
 //@   guarded_by mu: value, changeTime
 //@ type Collection
-//@   guarded_by mu: byId, config.rng
+//@   guarded_by mu: byId
+//@   guarded_by rngMu: config.rng
 //@
 //@ // helpers that are only ever called with the collection's lock held (every call site is checked against this)
 //@ func (*Collection).itemSlice(readConfig) (res)
